@@ -82,25 +82,44 @@ def record_session(base: bytes | None, n, mk, chain, header, password, root, tar
 
 
 def logical(blob, password):
-    """Member list as both readers see it: ('fail', why) or ('ok', [(name, kind-ish, bytes)])"""
+    """Member list as both readers see it: ('fail', why) | ('ok', [(name, bytes|None)]) | ('listed', names, why):
+    the image opens and lists members, but they cannot be read back."""
     import py7zr
 
     out = {}
     try:
-        r = ref7z.read(blob, password=password, strict=False)
-        out["ref"] = ("ok", [(m["name"], m["data"] if m["kind"] != "dir" else None) for m in r["members"]])
+        r0 = ref7z.read(blob, password=password, strict=False, decode=False)
+        names0 = [m["name"] for m in r0["members"]]
+        try:
+            r = ref7z.read(blob, password=password, strict=False)
+            out["ref"] = ("ok", [(m["name"], m["data"] if m["kind"] != "dir" else None) for m in r["members"]])
+        except Exception as ex:
+            out["ref"] = ("listed", names0, type(ex).__name__)
     except Exception as ex:
         out["ref"] = ("fail", type(ex).__name__)
     try:
-        with py7zr.SevenZipFile(io.BytesIO(blob), password=password) as z:
-            names = z.getnames()
-            dirs = {f.filename for f in z.files if f.is_directory}
-            f = Collect()
-            z.extractall(factory=f)
-            data = dict(f.as_list())
-            out["py"] = ("ok", [(n, None if n in dirs else data.get(n)) for n in names])
+        z = py7zr.SevenZipFile(io.BytesIO(blob), password=password)
     except Exception as ex:
         out["py"] = ("fail", type(ex).__name__)
+        return out
+    try:
+        names = z.getnames()
+        dirs = {f.filename for f in z.files if f.is_directory}
+    except Exception as ex:
+        out["py"] = ("fail", type(ex).__name__)
+        return out
+    try:
+        f = Collect()
+        z.extractall(factory=f)
+        data = dict(f.as_list())
+        out["py"] = ("ok", [(n, None if n in dirs else data.get(n)) for n in names])
+    except Exception as ex:
+        out["py"] = ("listed", names, type(ex).__name__)
+    finally:
+        try:
+            z.close()
+        except Exception:
+            pass
     return out
 
 
@@ -134,7 +153,13 @@ def run_spec(spec, wd):
         seen.add(k)
         res["images"] += 1
         lg = logical(img, pw)
-        for who, (st, val) in lg.items():
+        for who, got in lg.items():
+            st, val = got[0], got[1]
+            if st == "listed" and val:
+                # accepted as an archive and lists members, yet they cannot be read back: neither the before- nor the after-state
+                res["accepted"] += 1
+                res["violations"].append(({"symptom": "torn-image-lists-unreadable-members", "reader": who, "crash": label[0], "mode": "append" if base is not None else "create",
+                                           "header": header}, f"{who} opens the image after {label} and lists {val[:4]} but reading the members raises {got[2]}", list(label)))
             if st == "ok":
                 res["accepted"] += 1
                 if val not in ok_states:
@@ -142,7 +167,7 @@ def run_spec(spec, wd):
                         " (names right, bytes wrong)" if [n for n, _ in val] in [[n for n, _ in s] for s in ok_states] else "")
                     res["violations"].append(({"symptom": "torn-image-accepted", "reader": who, "crash": label[0], "mode": "append" if base is not None else "create",
                                                "header": header}, what, list(label)))
-    if final and logical(final, pw)["py"] != ("ok", norm(after)):
+    if final and logical(final, pw)["py"][:2] != ("ok", norm(after)):
         res["violations"].append(({"symptom": "complete-session-unreadable", "mode": "append" if base is not None else "create"}, "the completed session does not read back as its members", ["complete"]))
     return res
 
@@ -216,8 +241,8 @@ def main(tier="quick", seed=0, only=None):
             "writeall tree/directory; chains COPY, LZMA2, LZMA2+AES; header raw/encoded/encrypted; target = caller stream (each write call "
             "of py7zr is one op) and path (ops are the flushes of the real io.BufferedRandom)). For each: EVERY byte prefix of the recorded "
             "write/truncate stream, plus every image in which one of the two most recent completed ops never reached the disk. Every image "
-            "is opened by py7zr (names + extractall) and by ref7z; accepted images must show the complete member list of the session "
-            "(append: of the state before or after). evaluations = distinct images; distinct_nontrivial = sessions."
+            "is opened by py7zr (names + extractall) and by ref7z; an image that opens must show the complete member list of the session "
+            "(append: of the state before or after) AND its members must read back - an image that opens, lists members and then fails to deliver them is neither state. evaluations = distinct images; distinct_nontrivial = sessions."
         ),
         assumptions=["py7zr never calls fsync, so every op is unsynced; reordering is bounded to dropping one of the last two ops",
                      "the crashing session is the last one of the history"],
